@@ -40,7 +40,10 @@ def apply_transform_by_name(mod: nn.Module, t: Dict[str, Any]) -> nn.Module:
 
     name = t["T"]
     if name == "unit_scale":
-        rep = {programs.HELPERS[k]: getattr(U, v) for k, v in (t.get("replace") or {}).items()}
+        import torch.nn.functional as F
+
+        rep = {(getattr(F, k[2:]) if k.startswith("F.") else programs.HELPERS[k]): getattr(U, v)
+               for k, v in (t.get("replace") or {}).items()}
         return T.unit_scale(mod, replace=rep) if rep else T.unit_scale(mod)
     if name == "simulate_fp8":
         return T.simulate_fp8(mod)
